@@ -1441,6 +1441,17 @@ impl PeerConnection {
         self.inner
             .check_signaling_precondition(false, desc.sdp_type)?;
 
+        // A remote fingerprint other than the one the running DTLS transport is bound to
+        // cannot be applied; refuse it here, before the re-INVITE handling and the signaling
+        // transition below, so the failing call leaves the connection as it was.
+        if self.inner.dtls_transport.lock().is_some()
+            && *self.inner.remote_dtls_fingerprint.lock() != remote_dtls_fingerprint
+        {
+            return Err(RtcError::InvalidState(
+                "changing remote DTLS fingerprint after transport start is not supported".into(),
+            ));
+        }
+
         let previous_remote = self.inner.remote_description.lock().clone();
         let media_parameters_changed = previous_remote.as_ref().is_none_or(|previous| {
             previous.session.connection != desc.session.connection
